@@ -420,7 +420,7 @@ fn run_mt_inner(op: &str, a: &[Arg], st: &mut Stats) -> Option<Out> {
                 },
             }
         }
-        _ => return None,
+        _ => return super::c04bulk::run_mt_more(op, a, st), // bulk / history ops (c04bulk.rs)
     })
 }
 
